@@ -197,10 +197,10 @@ PROPS["C02"] = {
     "harness_tag": "c02",
     "quick": r"^VerifC02_", "thorough": r"^VerifC02T?_",
     "shards": {"a1_put": 4},
-    "bounds": {},
-    "assumptions": [],
-    "outside": [],
-    "claimed": False,
+    "bounds": {'designs': {'a1': 'PUT /items/{id}/v/{ver}: 2 path, 4 query (one with default), 2 header, 1 cookie, 6 body attributes (string, int with default, float, array, nested user type, map)', 'a2': 'alias-typed optional/required query and header parameters'}, 'values': 'full-width symbolic numbers, strings of 1-2 arbitrary bytes (headers/cookies: visible ASCII), one attribute group varied at a time'},
+    "assumptions": ['HTTP transports header/cookie/query values unchanged (identity containers); header strings are visible ASCII'],
+    "outside": ["path values containing '/' and zero-valued defaulted parameters are known findings", 'strings longer than 2 bytes', 'designs outside the catalogue (the generator cannot be executed on a symbolic design)', 'XML/gob/form/multipart bodies, websocket streaming, file servers', 'present-but-empty parameter texts'],
+    "manifest": {"text": 'Translation validation of generated client and server against each other: a symbolic payload is pushed through the generated client (BuildXRequest, EncodeXRequest, path functions, body constructors), over a wire model (request-target re-parsed by the real net/url, headers, cookies, JSON body by tag name) into the generated server mounted on the real goa muxer+chi, and the solver decides for all values within the bounds that the payload received by the service method equals the payload sent (defaults applied), attribute by attribute.', "note": 'Trusted: gosym executor, z3, the hand-written oracle of each catalogue design; transport seams modelled as identity containers (encoding/json by tag name - real encoding/json in native replays -, url.Values, cookies, Basic auth). The generator runs for real on every run in a scratch module (replace goa => /repo); counterexamples and sampled witnesses are replayed natively against the generated code.'},
 }
 
 PROPS["C03"] = {
@@ -210,10 +210,10 @@ PROPS["C03"] = {
     "designs": ["a1", "a2"],
     "harness_tag": "c03",
     "quick": r"^VerifC03_", "thorough": r"^VerifC03T?_",
-    "bounds": {},
-    "assumptions": [],
-    "outside": [],
-    "claimed": False,
+    "bounds": {'designs': {'a1': 'result with body attributes (string, int with default, nested user type, array) and two header attributes', 'a2': 'three responses selected by tag value (200/202/201), IPv6-formatted attribute validated by the client'}, 'values': 'full-width symbolic numbers, strings up to 2 bytes'},
+    "assumptions": ['HTTP transports header values unchanged; header strings are visible ASCII'],
+    "outside": ['designs outside the catalogue (the generator cannot be executed on a symbolic design)', 'XML/gob/form/multipart bodies, websocket streaming, file servers', 'present-but-empty parameter texts'],
+    "manifest": {"text": 'Translation validation of generated server encoder against generated client decoder: a symbolic result returned by the service is encoded by the generated server (status selection by tag, headers, body constructors), carried back over the wire model and decoded/validated by the generated client; the solver decides that status = designed status, exactly one response is written, header attributes travel in headers, and the client result equals the service result with defaults applied; a result violating a format is refused by the client.', "note": 'Trusted: gosym executor, z3, the hand-written oracle of each catalogue design; transport seams modelled as identity containers (encoding/json by tag name - real encoding/json in native replays -, url.Values, cookies, Basic auth). The generator runs for real on every run in a scratch module (replace goa => /repo); counterexamples and sampled witnesses are replayed natively against the generated code.'},
 }
 
 PROPS["C06"] = {
@@ -223,10 +223,10 @@ PROPS["C06"] = {
     "designs": ["s1"],
     "harness_tag": "c06",
     "quick": r"^VerifC06_", "thorough": r"^VerifC06T?_",
-    "bounds": {},
-    "assumptions": [],
-    "outside": [],
-    "claimed": False,
+    "bounds": {'designs': {'s1': 'Basic, JWT (2 scopes), API key; service-level Basic; method with two alternative requirements basic | (jwt & api_key with required scope); method inheriting the service requirement; NoSecurity method; credentials in Authorization (Basic), custom header (token), query (key)'}, 'values': 'all 8 callback outcome vectors, credentials of 0-2 (token up to 5) symbolic bytes, presence of every credential'},
+    "assumptions": ["Basic user ids contain no ':' (RFC 7617); header credentials are visible ASCII"],
+    "outside": ['OAuth2 flows', 'API-level requirements', 'designs outside the catalogue (the generator cannot be executed on a symbolic design)', 'XML/gob/form/multipart bodies, websocket streaming, file servers', 'present-but-empty parameter texts'],
+    "manifest": {"text": "Translation validation of the generated endpoint wrappers and credential plumbing: with recording authorization callbacks whose outcomes are symbolic, the solver decides that the service method runs iff the design's OR-of-ANDs requirement formula holds, that a refusal returns one of the callbacks' errors, that each callback receives the payload's credential for its scheme with the designed scopes, that a satisfied requirement had all its schemes consulted, that NoSecurity methods run without callbacks and inherited requirements apply; over HTTP, credentials written by the generated client are the ones the callbacks receive behind the generated server.", "note": 'Trusted: gosym executor, z3, the hand-written oracle of each catalogue design; transport seams modelled as identity containers (encoding/json by tag name - real encoding/json in native replays -, url.Values, cookies, Basic auth). The generator runs for real on every run in a scratch module (replace goa => /repo); counterexamples and sampled witnesses are replayed natively against the generated code.'},
 }
 
 PROPS["C05"] = {
@@ -236,10 +236,10 @@ PROPS["C05"] = {
     "designs": ["e1"],
     "harness_tag": "c05",
     "quick": r"^VerifC05_", "thorough": r"^VerifC05T?_",
-    "bounds": {},
+    "bounds": {'designs': {'e1': 'service-level error, method errors of ErrorResult, a custom object type shared by two errors on one status (409), a primitive error type; 10 kinds of returned error incl. wrapped, undeclared with every flag vector, plain Go error, custom type with undeclared name'}},
     "assumptions": [],
-    "outside": [],
-    "claimed": False,
+    "outside": ['request-decoding failures (covered by C04 harnesses)', 'error headers / goa-attribute-* headers', 'designs outside the catalogue (the generator cannot be executed on a symbolic design)', 'XML/gob/form/multipart bodies, websocket streaming, file servers', 'present-but-empty parameter texts'],
+    "manifest": {"text": "Translation validation of the generated error encoder and client error decoding together with goa's default ErrorEncoder/NewErrorResponse/StatusCode: for every kind of error the service can return the solver decides that exactly one response is written, the status is the designed one or follows the documented flag table, the goa-error header names the error, errors sharing a status are told apart, and the generated client returns an error of the designed Go type with the same name and attribute values.", "note": 'Trusted: gosym executor, z3, the hand-written oracle of each catalogue design; transport seams modelled as identity containers (encoding/json by tag name - real encoding/json in native replays -, url.Values, cookies, Basic auth). The generator runs for real on every run in a scratch module (replace goa => /repo); counterexamples and sampled witnesses are replayed natively against the generated code.'},
 }
 
 PROPS["C08"] = {
@@ -249,8 +249,8 @@ PROPS["C08"] = {
     "designs": ["w1", "w2"],
     "harness_tag": "c08",
     "quick": r"^VerifC08_", "thorough": r"^VerifC08T?_",
-    "bounds": {},
+    "bounds": {'designs': {'w1': 'result type with views default/tiny, nested result type with per-view override, collection, method with the view fixed in the design', 'w2': 'nested attribute carrying a view at type level and a different per-view override; dynamic and fixed-view methods on one result type'}, 'values': 'symbolic attribute values, view names default/tiny/empty, labels: every string up to 7 visible bytes that is not a defined view'},
     "assumptions": [],
-    "outside": [],
-    "claimed": False,
+    "outside": ['recursive result types (the generator emits duplicate types for them, C01)', 'designs outside the catalogue (the generator cannot be executed on a symbolic design)', 'XML/gob/form/multipart bodies, websocket streaming, file servers', 'present-but-empty parameter texts'],
+    "manifest": {"text": 'Translation validation of generated view projection (NewViewedX, newXView*, server response bodies per view, goa-view header, client decode + views-package validation + NewX): the solver decides that the wire document (inspected through its JSON member names) carries exactly the attributes of the selected view, recursively with per-attribute overrides and for collections, that the view name accompanies the response, that the client rebuilds equal in-view attributes and leaves out-of-view attributes unset, that the empty name means default, and that every undefined view label is refused.', "note": 'Trusted: gosym executor, z3, the hand-written oracle of each catalogue design; transport seams modelled as identity containers (encoding/json by tag name - real encoding/json in native replays -, url.Values, cookies, Basic auth). The generator runs for real on every run in a scratch module (replace goa => /repo); counterexamples and sampled witnesses are replayed natively against the generated code.'},
 }
